@@ -2,7 +2,8 @@
    IMPLEMENTATION's outputs (SPECFAIL). -/
 import SwV.Common.Drv
 import SwV.Model.C22
-import SwV.Spec.C22
+import SwV.Model.C22Disk
+import SwV.Spec.C22Disk
 open SwV.Drv SwV.Model.C22 SwV.Spec.C22
 
 structure IRd where
@@ -18,6 +19,10 @@ structure St where
   iflush : Option Int := none
   ioldest : Option Int := none
   ird : List (String × IRd) := []
+  -- disk cases (dreset …): the log buffer + the segment files written by the production flush function
+  dd : DLB := { lb := init ⟨0, 0, 0, 0⟩ }
+  drds : List Rd := []
+  ifiles : List IFile := []
 
 def tmTok (t : Int) : String := if t = zeroT then "z" else toString t
 def bufTok (b : Buf) : String := s!"{b.pos},{b.cap},{tmTok b.start},{tmTok b.stop}"
@@ -75,6 +80,52 @@ def judgeRd (st : St) (n : Nat) (site name : String) (delivered : List String) :
       | some cls => (st', [specfail n cls s!"{name} t0={r.t0} delivered-now={listTok l}"])
 
 def splitToks (s : String) : List String := if s == "-" then [] else s.splitOn ","
+
+def segTok (F : Seg) : String := s!"{F.day}/{F.hm}:{listTok F.ents}"
+def filesToks (fs : List Seg) : List String := if fs.isEmpty then ["-"] else fs.map segTok
+
+/-- `day/hm:ts,ts,…` -/
+def parseIFile (t : String) : Option IFile :=
+  match t.splitOn ":" with
+  | [k, l] =>
+    (match k.splitOn "/" with
+     | [d, h] => do
+       let d ← d.toNat?; let h ← h.toNat?; let l ← parseList l
+       pure (d, h, l)
+     | _ => none)
+  | _ => none
+
+def parseIFiles (toks : List String) : Option (List IFile) :=
+  if toks == ["-"] then some [] else toks.mapM parseIFile
+
+/-- what a flush did to the layout -/
+def flushCov (f0 f1 : List Seg) : List String :=
+  if f1 == f0 then [] else
+  (if f1.length = f0.length then ["COV dflush.appends-to-existing-file"] else ["COV dflush.new-file"]) ++
+  (if (f1.map (·.day)).eraseDups.length > (f0.map (·.day)).eraseDups.length ∧ ¬ f0.isEmpty then ["COV dflush.new-day"] else []) ++
+  (if f1.any (fun F => F.ents.any (fun e => decide (F.day * 1440 + F.hm < minuteIdx e))) then ["COV dflush.buffer-straddles-minutes"] else [])
+
+/-- a file that is not read although it holds entries later than T -/
+def skipsNeeded (fs : List Seg) (T : Int) : Bool :=
+  fs.any (fun F => ¬ (selected fs T).contains F ∧ ¬ (readSeg T F).isEmpty)
+
+def judgeD (st : St) (n : Nat) (name : String) (delivered : List String) : St × List String :=
+  match st.ird.lookup name with
+  | none => (st, [])
+  | some r =>
+    if r.broken then (st, []) else
+    match delivered.mapM (·.toNat?) with
+    | none =>
+      let r' := { r with broken := true }
+      ({ st with ird := st.ird.map fun p => if p.1 == name then (name, r') else p }, [specfail n "dsubscribe/unknown-event" s!"{name} {delivered}"])
+    | some l =>
+      let got := r.got ++ l
+      let j := deliveryJudge "dsubscribe" st.ilog got r.t0 st.ioldest st.iflush
+      let r' := { r with got := got, broken := j.isSome }
+      let st' := { st with ird := st.ird.map fun p => if p.1 == name then (name, r') else p }
+      match j with
+      | none => (st', [])
+      | some cls => (st', [specfail n (reclassSkip cls "dsubscribe" st.ifiles st.ilog got r.t0) s!"{name} t0={r.t0} delivered-now={listTok l}"])
 
 def step (st : St) (n : Nat) (ln : Line) : St × List String :=
   let a := ln.args
@@ -159,6 +210,61 @@ def step (st : St) (n : Nat) (ln : Line) : St × List String :=
         else (if r1.lastResume then ["COV sub.mem-resume-from-disk"] else []) ++ (if ¬ now.isEmpty then ["COV sub.mem-delivers"] else ["COV sub.mem-blocks"])
       let unsafeRead := ¬ r0.onDisk ∧ ¬ (s!"{readBranch st.sys.lb r0.T}" == "read.resume") ∧ st.sys.lb.dropped.any (fun t => decide (r0.T < (t : Int)))
       (st2, diff n ln model ++ js ++ cov ++ (if unsafeRead then ["COV sub.reads-past-recycled-unflushed"] else []))
+  | "dreset" =>
+    let cfg : Cfg := ⟨tokInt (a.getD 0 "0"), tokNat (a.getD 1 "0"), tokNat (a.getD 2 "0"), tokInt (a.getD 3 "0")⟩
+    ({ dd := { lb := init cfg } }, ["COV dreset"])
+  | "dadd" =>
+    let ets := tokNat (a.getD 0 "1"); let dlen := tokNat (a.getD 1 "0")
+    let ets := if ets = 0 then 1 else ets
+    let d0 := st.dd
+    let d1 := settle { d0 with lb := add d0.lb ets dlen }
+    let st1 := noteSnap { st with dd := d1, ilog := st.ilog ++ [tokNat (o.getD 0 "0")] } o
+    (st1, diff n ln (snapToks d1.lb) ++ flushCov d0.files d1.files ++ (if d0.lb.lastTs ≥ ets then ["COV dadd.ts-fixup"] else []))
+  | "dseal" =>
+    let d0 := st.dd
+    let d1 := settle { d0 with lb := sealNow d0.lb }
+    let st1 := noteSnap { st with dd := d1 } o
+    (st1, diff n ln (snapToks d1.lb) ++ flushCov d0.files d1.files)
+  | "dls" =>
+    let st1 := match parseIFiles o with | some fs => { st with ifiles := fs } | none => st
+    (st1, diff n ln (filesToks st.dd.files) ++ ["COV dls"])
+  | "dread" =>
+    let T := tokInt (a.getD 0 "0")
+    let fs := st.dd.files
+    let (l, last) := persistedRead fs T
+    let model := ["ok", listTok l, toString last] ++ filesToks fs
+    let (st1, j) := match parseIFiles (o.drop 3), parseList (o.getD 1 "-") with
+      | some ifs, some got =>
+        ({ st with ifiles := ifs }, match diskReadJudge ifs got T with
+          | none => []
+          | some cls => [specfail n cls s!"T={T} delivered={listTok got}"])
+      | _, _ => (st, [specfail n "ReadPersistedLogBuffer/unknown-event" s!"T={T} {o}"])
+    (st1, diff n ln model ++ j ++ (if skipsNeeded fs T then ["COV dread.skips-file-with-later-entries"] else ["COV dread.exact"])
+      ++ (if (selected fs T).length < fs.length ∧ ¬ l.isEmpty then ["COV dread.skips-earlier-files"] else []))
+  | "dnew" =>
+    let name := a.getD 0 "r"; let T := tokInt (a.getD 1 "0")
+    ({ st with drds := st.drds ++ [{ t0 := T, T := T }], names := st.names ++ [name], ird := st.ird ++ [(name, { t0 := T })] },
+      diff n ln [] ++ ["COV dnew"])
+  | "dstep" =>
+    let name := a.getD 0 "r"
+    match st.names.idxOf? name with
+    | none => (st, diff n ln ["nosub"])
+    | some i =>
+      let r0 := st.drds.getD i { t0 := 0, T := 0 }
+      let rds1 := modifyAt (rstepD st.dd) st.drds i
+      let r1 := rds1.getD i r0
+      let now := r1.got.drop r0.got.length
+      let ph (b : Bool) := if b then "disk" else "mem"
+      let model := if r0.onDisk then ["disk", listTok now, toString r1.T, ph r1.onDisk, if r1.lastResume then "1" else "0"] ++ filesToks st.dd.files
+        else ["mem", listTok now, toString r1.T, ph r1.onDisk, if r1.lastResume then "resume" else "ok"]
+      let st1 := { st with drds := rds1 }
+      let st1 := if r0.onDisk then (match parseIFiles (o.drop 5) with | some fs => { st1 with ifiles := fs } | none => st1) else st1
+      let (st2, js) := judgeD st1 n name (splitToks (o.getD 1 "-"))
+      let cov := if r0.onDisk then
+          (if ¬ now.isEmpty then ["COV dsub.disk-delivers"] else if r0.lastResume then ["COV dsub.disk-retry"] else ["COV dsub.disk-nothing"])
+          ++ (if skipsNeeded st.dd.files r0.T then ["COV dsub.disk-skips-file-with-later-entries"] else [])
+        else (if r1.lastResume then ["COV dsub.mem-resume-from-disk"] else []) ++ (if ¬ now.isEmpty then ["COV dsub.mem-delivers"] else ["COV dsub.mem-blocks"])
+      (st2, diff n ln model ++ js ++ cov)
   | _ => (st, [s!"DIFF {n} unknown-op {ln.op}"])
 
 def main : IO Unit := run { init := ({} : St), step := step }
